@@ -645,6 +645,20 @@ func bytesEq(a, b []byte) bool {
 // C11: completion under every traffic pattern, cancellation and Close
 func genC11(r *Run) {
 	evals := 0
+	// a call ends only for one of its own reasons, also when another call on the same id has just ended: call B takes
+	// the id of call A while A returns with a full buffer (B started before or after A's return); B must still be
+	// waiting when its answer arrives and end with that answer
+	for _, v6 := range []bool{false, true} {
+		for k := 0; k < r.N(40, 1000); k++ {
+			a, b := reuseAfterFullBufferMode(v6, k%2 == 0)
+			evals++
+			if a.status == 1 && (b.status != 1 || b.payload != 99) {
+				r.Fail("c11-call-ended-without-cause", fmt.Sprintf("v6=%v: call B reuses the id of call A, which returns with a full buffer and a parked datagram (B started %s A returned); B's answer arrives afterwards (round %d)", v6, map[bool]string{true: "before", false: "after"}[k%2 == 0], k),
+					fmt.Sprintf("call B ended with status %d payload %d: not its answer, although neither its context, its tries nor the client had ended", b.status, b.payload))
+				break
+			}
+		}
+	}
 	nsc := r.N(150, 20000)
 	for i := 0; i < nsc; i++ {
 		entry := eTimedV4
